@@ -167,6 +167,10 @@ func run(sc *Scenario, tr *Trace) {
 	tr.Samples = append(tr.Samples, fin)
 	s.insts[0].stop(false)
 	synctest.Wait()
+	// a delivery that ignores cancellation (behaviour slowx, up to 400 s) may still be in flight: virtual time
+	// only advances while this goroutine lives, so outwait it before the bubble ends
+	time.Sleep(500 * time.Second)
+	synctest.Wait()
 }
 
 func mergeKeys(a, b []NflogEntry) []NflogEntry {
